@@ -347,7 +347,7 @@ func envelopeBeginOrder(f *ssa.Function) bool {
 	})
 	core.Instrs(f, func(in ssa.Instruction) {
 		if st, ok := in.(*ssa.Store); ok {
-			if fa, ok := st.Addr.(*ssa.FieldAddr); ok && core.FieldOf(fa).Name() == "SeqID" {
+			if fa, ok := st.Addr.(*ssa.FieldAddr); ok && core.FieldName(core.FieldOf(fa)) == "SeqID" {
 				if ex, ok := core.Unop(st.Val).(*ssa.Extract); ok && ex.Tuple != first && first != nil {
 					okStore = true
 				}
@@ -412,7 +412,7 @@ func checkServerMirror(c *core.Ctx, l *core.Ledger) {
 			if fa, ok := r.(*ssa.FieldAddr); ok {
 				for _, rr := range *fa.Referrers() {
 					if st, ok := rr.(*ssa.Store); ok && st.Addr == fa {
-						switch core.FieldOf(fa).Name() {
+						switch core.FieldName(core.FieldOf(fa)) {
 						case "Name":
 							name += core.Sym(st.Val) + "|"
 						case "SeqID":
